@@ -3,8 +3,10 @@
  *   Reset len start np (kind d)*np nc (kind)*nc     kind: 0 put, 1 putchar / 0 get, 1 empty
  *   S c          context c executes its next atomic operation
  *   Gen seed nexec irq */
+#define _GNU_SOURCE
 #include "drv.h"
 #include "vrt.h"
+#include <sys/mman.h>
 #include <librfn/ringbuf.h>
 
 #define GUARD 32
@@ -53,7 +55,14 @@ static void reset(void)
 	rb = calloc(1, sizeof(*rb));
 	vrt_reset();
 	vrt_clear_regions();
-	ringbuf_init(rb, ring, len);
+	static unsigned nresets;
+	if (nresets++ & 1) {
+		/* the static initialiser, its arguments spelled as compound expressions (pointer arithmetic on a word pointer) */
+		uint32_t *words = (uint32_t *)(void *)area;
+		ringbuf_t q = RINGBUF_VAR_INIT(words + GUARD / 4, len - 1 + 1);
+		memcpy(rb, &q, sizeof(q));
+	} else
+		ringbuf_init(rb, ring, len);
 	for (int i = 0; i < start; i++) { /* pre-roll the indices to the starting position */
 		ringbuf_put(rb, 0);
 		ringbuf_get(rb);
@@ -188,6 +197,54 @@ static void fill(int l, int st)
 	printf("{\"e\":\"Drain\",\"ok\":%d,\"got\":%d,\"tail\":[%d,%d,%d]}\n", ok, got, d1, d2, d3);
 }
 
+/* rings of 2^31 bytes and more: address space only (never-touched pages cost nothing); the indices are placed next to the
+ * end of the ring (the structure is public), then a few sequential calls; two guard pages around the ring are PROT_NONE */
+static void pr32(const char *k, unsigned v) { printf("\"%s\":[%u,%u]", k, v >> 16, v & 0xffff); }
+static ringbuf_t hrb;
+static void hstate(void) { printf(","); pr32("r", *(volatile unsigned *)&hrb.readi); printf(","); pr32("w", *(volatile unsigned *)&hrb.writei); }
+static void huge_case(unsigned l, unsigned r0, unsigned w0, unsigned pre)
+{
+	size_t maplen = (size_t)l + 2 * 4096;
+	maplen = (maplen + 4095) & ~(size_t)4095;
+	uint8_t *map = mmap(NULL, maplen, PROT_NONE, MAP_PRIVATE | MAP_ANONYMOUS | MAP_NORESERVE, -1, 0);
+	if (map == MAP_FAILED) { fprintf(stderr, "rb_drv: cannot reserve address space\n"); exit(3); }
+	uint8_t *ringp = map + 4096;
+	/* the ring proper is readable and writable except that nothing here touches more than its first and last pages */
+	mprotect(ringp, 2 * 4096, PROT_READ | PROT_WRITE);
+	uint8_t *lastpg = (uint8_t *)(((uintptr_t)(ringp + l - 1)) & ~(uintptr_t)4095);
+	mprotect(lastpg - 4096, 2 * 4096, PROT_READ | PROT_WRITE);
+	/* bytes just outside the ring (same pages) carry a pattern */
+	for (uint8_t *q = ringp + l; q < lastpg + 4096; q++) *q = 0xA5;
+	ringbuf_init(&hrb, ringp, l);
+	atomic_store(&hrb.readi, r0);
+	atomic_store(&hrb.writei, w0);
+	printf("{\"e\":\"BPlace\","); pr32("len", l); hstate(); printf(","); pr32("pre", pre); printf("}\n");
+	static const int script[] = { 'E', 'P', 'P', 'E', 'G', 'G', 'P', 'P', 'P', 'G', 'E', 'G', 'G', 'G', 'E', 'P', 'G' };
+	int d = 7;
+	for (unsigned i = 0; i < sizeof(script) / sizeof(script[0]); i++) {
+		int oob = 0;
+		if (script[i] == 'P') { d = (d * 13 + 5) & 0xff; bool ok = ringbuf_put(&hrb, (uint8_t)d); printf("{\"e\":\"BPut\",\"d\":%d,\"ok\":%d", d, ok); }
+		else if (script[i] == 'G') { int v = ringbuf_get(&hrb); printf("{\"e\":\"BGet\",\"v\":%d", v); }
+		else { bool e = ringbuf_empty(&hrb); printf("{\"e\":\"BEmpty\",\"v\":%d", e); }
+		for (uint8_t *q = ringp + l; q < lastpg + 4096; q++) if (*q != 0xA5) oob++;
+		hstate(); printf(",\"oob\":%d}\n", oob);
+	}
+	munmap(map, maplen);
+}
+static void huge(void)
+{
+	static const unsigned lens_[] = { 0x80000000u + 4096, 0x80000000u, 0x80000001u, 0x7ffffff8u, 0xc0000000u, 0xfffff000u };
+	for (unsigned k = 0; k < sizeof(lens_) / sizeof(lens_[0]); k++) {
+		unsigned l = lens_[k];
+		huge_case(l, 0, l - 1, l - 1);          /* full, the write index at the last slot */
+		huge_case(l, 0, l - 2, l - 2);          /* room for exactly one */
+		huge_case(l, l - 1, l - 2, l - 1);      /* full, the read index at the last slot */
+		huge_case(l, l - 1, l - 1, 0);          /* empty at the last slot */
+		huge_case(l, l - 2, l - 1, 1);
+		huge_case(l, 1, 0, l - 1);              /* full, wrapped */
+	}
+}
+
 int main(void)
 {
 	drv_cmd_t c;
@@ -205,6 +262,8 @@ int main(void)
 			step(drv_arg(&c, 0));
 		else if (drv_is(&c, "Gen"))
 			gen(drv_arg(&c, 0), drv_arg(&c, 1), drv_arg(&c, 2));
+		else if (drv_is(&c, "Huge"))
+			huge();
 		else if (drv_is(&c, "Fill"))
 			fill(drv_arg(&c, 0), drv_arg(&c, 1));
 		else if (drv_is(&c, "Late"))
